@@ -340,28 +340,52 @@ def grid_cells(kname):
 
 
 def grid_check(chk, per_kernel=None, limit=3):
-    """[B] real kernels vs reference over the unit x dtype grid of the property: all cells (per_kernel=None) or a seeded sample."""
+    """[B] real kernels vs reference over the unit x dtype grid of the property: all cells (per_kernel=None) or a seeded sample.
+    Three passes, each on a freshly executed module: the cells in grid order (double precision first), in reverse order (integers
+    first) and with the single-precision cells first -- a result must not depend on which calls were made before it."""
     import numpy as np
+    from vf.realrun import real_module
     total, fails, cells_total = 0, [], 0
-    for kname in KERNELS:
-        cells = grid_cells(kname)
-        cells_total += len(cells)
-        rng = np.random.default_rng(1000 + chk.seed + len(kname))
-        idx = range(len(cells)) if per_kernel is None or per_kernel >= len(cells) else sorted(rng.choice(len(cells), size=per_kernel, replace=False))
-        nf = 0
-        for i in idx:
-            units, dts = cells[i]
-            desc, problems = grid_case(kname, units, dts, np.random.default_rng([chk.seed, i, len(kname)]))
-            total += 1
-            if problems and nf < limit:
-                nf += 1
-                fails.append({'id': f'{kname}-cell{i}', 'kernel': kname, 'cell': int(i), 'seed': chk.seed, 'inputs': desc, 'problems': problems})
+    for order in ('forward', 'reverse', 'single precision first'):
+        real_module('conversion.tof', fresh=True)
+        for kname in KERNELS:
+            cells = grid_cells(kname)
+            cells_total += len(cells) if order == 'forward' else 0
+            rng = np.random.default_rng(1000 + chk.seed + len(kname))
+            idx = list(range(len(cells))) if per_kernel is None or per_kernel >= len(cells) else sorted(rng.choice(len(cells), size=per_kernel, replace=False))
+            if order == 'reverse':
+                idx = idx[::-1]
+            elif order != 'forward':
+                idx = sorted(idx, key=lambda i: -sum(d == 'float32' for d in cells[i][1]))
+            nf = 0
+            for i in idx:
+                units, dts = cells[i]
+                desc, problems = grid_case(kname, units, dts, np.random.default_rng([chk.seed, i, len(kname)]))
+                total += 1
+                if problems and nf < limit and not any(f['kernel'] == kname and f['cell'] == int(i) for f in fails):
+                    nf += 1
+                    fails.append({'id': f'{kname}-cell{i}-{order}', 'kernel': kname, 'cell': int(i), 'seed': chk.seed, 'order': order, 'inputs': desc, 'problems': problems})
     return total, cells_total, fails
 
 
 def replay_grid(f):
+    """re-run the failing cell; for a failure that appeared in the reverse pass, after the calls that preceded it in that pass
+    (on a freshly executed module), since the defect may be a dependence on earlier calls"""
     import numpy as np
-    cells = grid_cells(f['kernel'])
+    from vf.realrun import real_module
+    real_module('conversion.tof', fresh=True)
+    kname = f['kernel']
+    cells = grid_cells(kname)
+    seed = int(f.get('seed', 0))
+    order = list(range(len(cells)))
+    if f.get('order') == 'reverse':
+        order = order[::-1]
+    elif f.get('order') not in (None, 'forward'):
+        order = sorted(order, key=lambda i: -sum(d == 'float32' for d in cells[i][1]))
+    if f.get('order') not in (None, 'forward'):
+        for j in order[:order.index(int(f['cell']))]:
+            grid_case(kname, cells[j][0], cells[j][1], np.random.default_rng([seed, j, len(kname)]))
     units, dts = cells[int(f['cell'])]
-    desc, problems = grid_case(f['kernel'], units, dts, np.random.default_rng([int(f.get('seed', 0)), int(f['cell']), len(f['kernel'])]))
-    return {'reproduced': bool(problems), 'inputs': desc, 'problems': problems}
+    desc, problems = grid_case(kname, units, dts, np.random.default_rng([seed, int(f['cell']), len(kname)]))
+    return {'reproduced': bool(problems), 'inputs': desc, 'problems': problems,
+            'history': f'after the calls that precede this cell in the pass "{f.get("order")}"' if f.get('order') not in (None, 'forward') else 'first call after import'}
